@@ -338,6 +338,51 @@ def _settings(repo, rep):
             rep.check(ok, "R10.3", site, "i18n:target evaluates its "
                       "expression and assigns the result",
                       construct="target-eval", where=wh)
+    # G-CATCH: the brackets above are straight-line code; a failure inside
+    # the element skips the restore.  tal:on-error ends the failure's
+    # propagation inside the same function, so its handler has to put the
+    # three settings back as they were when its element was entered
+    oe = repo.func(CC + "visit_OnError")
+    r = L.emission(repo, oe.qualname)
+    lin = L.Lin(r.emission)
+    tries = lin.all(L.is_py("Try"))
+    ok = False
+    detail = "no try statement"
+    if tries:
+        ti = tries[0]
+        want = ("__i18n_domain", "__i18n_context", "target_language")
+        save = None
+        for i in range(ti):
+            it = lin.item(i)
+            if isinstance(it, A.Frag):
+                for node, b in L.frag_find(it, "_S = (%s, %s, %s)" % want):
+                    save = (i, L.name_key(it, b["_S"]),
+                            L.slot_value(it, b["_S"]))
+        restore = False
+        hs = [w for w in A.walk(lin.item(ti).f.get("handlers"))
+              if isinstance(w, A.Py) and w.kind == "ExceptHandler"]
+        for h in hs:
+            items = [w for w in A.walk(h.f.get("body"))
+                     if isinstance(w, (A.Frag, A.Child))]
+            kid = [i for i, w in enumerate(items) if isinstance(w, A.Child)]
+            for i, w in enumerate(items):
+                if isinstance(w, A.Frag) and save is not None:
+                    for node, b in L.frag_find(
+                            w, "(%s, %s, %s) = _S" % want) + L.frag_find(
+                                w, "%s, %s, %s = _S" % want):
+                        if L.name_key(w, b["_S"]) == save[1] and (
+                                not kid or i < kid[0]):
+                            restore = True
+        per_node = save is not None and A.per_node(save[2])[0]
+        ok = save is not None and restore and per_node
+        detail = "saved before try: %s, per node: %s, restored first in " \
+                 "the handler: %s" % (save is not None, per_node, restore)
+    rep.check(ok, "R10.3", oe.qualname, "the tal:on-error handler restores "
+              "domain, context and target language from a per-node snapshot "
+              "taken before the element (a failure below an i18n:domain "
+              "element must not leave that domain in force)",
+              construct="handler-restores-settings", where=L.where(oe),
+              detail=detail)
     # function parameters
     params = ["__stream", "econtext", "rcontext", "__i18n_domain",
               "__i18n_context", "target_language"]
